@@ -11,7 +11,7 @@ MODEL_FILES = ['Container/Container.v', 'Container/Alias.v']
 K_NAME = ('K_container (Container.np_step / np_init_model, OCaml extraction, vs VectorContainer / BaseModel / BaseLinker: outcome class, '
           'index, dtype+shape+cells of every series, values shape or exception, size, nbytes, strict, _attributes, attribute names after every op)')
 RULE = ('operation sequences over {add_variable, attribute set, item set by name / (name,label) / (name,label-slice), replace_values, '
-        'values setter (array/scalar/list), add_attribute, strict toggle}: exhaustive sequences of length <= 3 over a reduced alphabet on '
+        'values setter (array/scalar/list), add_attribute, strict toggle, read-only hooks (_ipython_key_completions_, dir(), in, nbytes)}: exhaustive sequences of length <= 3 over a reduced alphabet on '
         'VectorContainer, random sequences of length <= 40 on VectorContainer, BaseModel, BaseLinker (with and without a submodel); operands: '
         'scalars (int, half-integer floats, nan, +-inf, bool, str, None), lists/tuples/ranges of right and wrong length, nested and ragged lists, '
         'ndarrays of shapes (), (1,), (n,), (n+-1,), (1,n), (n,1), (2,n), (r,n) and dtypes float/int/bool/str/object. '
@@ -19,7 +19,7 @@ RULE = ('operation sequences over {add_variable, attribute set, item set by name
 TRUSTED = ['harness/container_common.py (case encoding, real-object driver, OCaml driver text, extraction via ExtrOcamlBasic/ExtrOcamlString)',
            'difflib.get_close_matches is an oracle: its answer is recorded from the run and handed to the model']
 ASSUMPTIONS = ['names used by operations do not start with "_" and are not core attribute names (span, index, names, dtype, ...); '
-               '"attributes"/"strict" are used only as item-set names (kept finding)',
+               '"attributes"/"strict" are used only as item-set names (rejected with KeyError since fix 216fc36)',
                'operand cells: |ints| < 2**31, floats are half-integers or nan/+-inf, strings are not numeric literals; no object-dtype series '
                '(add_variable without dtype never receives None)',
                'span = a Python list of ints (list.index lookup)']
@@ -161,6 +161,12 @@ def rand_op(rng, span, kind, nrows_hint, pool=None):
     n = len(span)
     r = rng.random()
     vc = kind == 'vc'
+    if r < 0.05:
+        # public read-only hooks: they must leave the object exactly as it was
+        q = rng.choice(['completions', 'dir', 'contains', 'contains'] + ([] if kind == 'linker' else ['nbytes']))
+        if q == 'contains':
+            return ['query', ['contains', rng.choice(VARS + ['Q', 'status', 'foo', 'attributes'])]]
+        return ['query', q]
     if r < 0.18:
         nm = rng.choice(VARS)
         dt = rng.choice([None, None, 'f', 'i', 's', 'b'])
@@ -248,6 +254,7 @@ def reduced_alphabet():
         ['replace', [['Y', S(['i', 4])], ['X', li(1, 2, 3, 4)]]],
         ['setattr', 'values', S(['f', 3])],
         ['setattr', 'values', ['A', [2, 3], 'F', [['f', i] for i in range(6)]]],
+        ['query', 'completions'],
     ]
 
 
@@ -316,19 +323,8 @@ def explain(case, obs):
 
 
 # --------------------------------------------------------------------------- the property, directly on observations
-def _uses_hidden_name(case):
-    for op in case['ops']:
-        if op[0] == 'setitem' and op[1][0] in ('l', 'sl') and op[1][1] in ('attributes',):
-            return True
-    return False
-
-
 def guard(case, obs):
-    """Guard class of the kept findings: after `obj['attributes', label] = v` (accepted although 'attributes' is no variable) the
-    registry is corrupt; list-slice assignment on _attributes is not modelled. K is silent there, the oracle speaks."""
-    for op in case['ops']:
-        if op[0] == 'setitem' and op[1][0] == 'sl' and op[1][1] == 'attributes':
-            return True
+    """No kept finding of C09 takes inputs out of the model's reach: K is compared everywhere."""
     return False
 
 
@@ -338,6 +334,8 @@ def _series(st):
 
 def _target_names(op):
     t = op[0]
+    if t == 'query':
+        return [op[1][1]] if isinstance(op[1], list) else []
     if t in ('addvar', 'setattr', 'addattr'):
         return [op[1]]
     if t == 'setitem':
@@ -417,8 +415,22 @@ def oracle(case, obs):
         if stp.get('values_set_ok') is False:
             bad('values|setter-content', 'op %d: obj.values = v was accepted but the series do not hold the assigned rows '
                 '(row i -> i-th declared variable, cast to its dtype)' % i)
+        # ---- read-only hooks: nothing changes; what they return
+        if op[0] == 'query':
+            if {k: v for k, v in st.items() if k != 'values_rows_ok'} != {k: v for k, v in prev.items() if k != 'values_rows_ok'}:
+                changed = [k for k in st if k != 'values_rows_ok' and st[k] != prev.get(k)]
+                bad('hook|state-changed', 'op %d: %s changed the object (%s)' % (i, op[1], changed))
+            ret = stp.get('ret')
+            if op[1] == 'completions' and ret != {'names': list(prev['index'])}:
+                bad('hook|completions', 'op %d: _ipython_key_completions_() gave %s, the variables are %s' % (i, ret, prev['index']))
+            if op[1] == 'nbytes' and isinstance(prev['nbytes'], int) and ret != {'nat': prev['nbytes'] + 0}:
+                bad('hook|nbytes', 'op %d: nbytes gave %s, the series occupy %s bytes' % (i, ret, prev['nbytes']))
+            if isinstance(op[1], list) and ret != {'bool': op[1][1] in rows}:
+                bad('hook|contains', 'op %d: %r in obj gave %s, declared are %s' % (i, op[1][1], ret, rows))
+            if op[1] == 'dir' and not (isinstance(ret, dict) and all(x in ret['names'] or x in ret.get('masked', []) for x in prev['index'])):
+                bad('hook|dir', 'op %d: dir(obj) does not list the variables: %s' % (i, ret))
         # ---- (3) a failed single-variable assignment leaves every series unchanged
-        single = op[0] in ('addvar', 'setitem') or (op[0] == 'setattr' and op[1] not in ('values',))
+        single = op[0] in ('addvar', 'setitem', 'query') or (op[0] == 'setattr' and op[1] not in ('values',))
         if single and out != 'ok':
             if st['index'] != prev['index']:
                 bad('failed-op|index-changed', 'op %d %s raised %s but index changed' % (i, op[0], out))
@@ -434,10 +446,7 @@ def oracle(case, obs):
                     bad('failed-op|series-changed', 'op %d %s raised %s but series %s changed' % (i, op[0], out, changed))
         # unknown / duplicate names must raise
         if op[0] == 'setitem' and len(op[1]) > 1 and op[1][1] not in prev['index'] and out == 'ok':
-            bad('setitem|unknown-name-accepted', "op %d: obj[%r, ...] = v with %r not a variable did not raise" % (i, op[1][1], op[1][1]))
-            # the write went into some other object of __dict__ (the attribute registry): what follows is judged on a corrupted
-            # object and would only repeat this finding in other words
-            break
+            bad('setitem|unknown-name-not-rejected', "op %d: obj[%r, ...] = v with %r not a variable did not raise" % (i, op[1][1], op[1][1]))
         if op[0] == 'addvar' and op[1] in prev['index'] and out != 'DuplicateNameError':
             bad('add_variable|duplicate-name', 'op %d: add_variable of existing %s gave %s' % (i, op[1], out))
         if op[0] == 'addattr' and (op[1] in prev['index'] or op[1] in prev['reg']) and out != 'DuplicateNameError':
